@@ -123,7 +123,7 @@ def cases(ctx, curve):
 def run(ctx):
     ctx.rule = ('Leg A: KeyFlow flow "sign" - every (curve, signature form, message form, tamper kind incl. each other curve) scenario, '
                 'stepwise Key.verify (prefix step, scheme step) against the declarative Valid; Leg B: every completed scenario x K seeded '
-                'keys/messages (K = 3 quick / 200 thorough; BLS 1 / 20): pytezos signs, an independent implementation verifies the raw signature over the '
+                'keys/messages (K = 3 quick / 200 thorough; BLS 1 / 20; the untampered curve-form scenario of the three non-BLS curves on 900 / 6000 messages, so that r / s with leading zero bytes occur): pytezos signs, an independent implementation verifies the raw signature over the '
                 'model\'s digest, Key.verify (public key only) and CHECK_SIGNATURE must give the model\'s verdict; every evaluated case is non-trivial '
                 '(a real signature is produced and checked); cases whose signing step already disagreed are not counted as non-trivial')
     ctx.assumptions = ['symbolic cryptography in the spec; interpreted in replay by hashlib Blake2b, `cryptography` (OpenSSL) Ed25519 / ECDSA secp256k1 / ECDSA P-256 over the 32-byte prehash, own Base58Check',
@@ -144,7 +144,12 @@ def run(ctx):
         raise MachineryError('expected 168 scenarios, TLC printed %d' % len(outs))
     for sc in outs:
         curve = sc[2]
-        for k in range(cases(ctx, curve)):
+        kk = cases(ctx, curve)
+        if curve != 'bl' and sc[3] == 'curve' and sc[4] == 'bytes' and sc[5][0] == 'none':
+            # signature components with leading zero bytes occur once in ~128 signatures: the plain sign/verify scenario is
+            # replayed on many more seeded messages so that short r / s values are certainly met
+            kk = 900 if ctx.quick else 6000
+        for k in range(kk):
             ok, reached = replay_case(ctx, sc, k)
             ctx.replayed += 1
             ctx.count((sc, k), nontrivial=reached)
